@@ -366,6 +366,7 @@ def main():
     ap.add_argument('--tier', default=os.environ.get('VERIF_TIER', 'quick'))
     ap.add_argument('--keep', action='store_true')
     ap.add_argument('--only')
+    ap.add_argument('--verbose', '-v', action='store_true')
     ap.add_argument('--jobs', type=int, default=int(os.environ.get('VERIF_JOBS', '14')))
     a = ap.parse_args()
     prop = a.prop.upper()
@@ -444,6 +445,9 @@ def run(prop, tier, scratch, ev_path, a, t00):
         n_ok = sum(1 for o in u.obls if o['status'] == 'proved')
         print("unit %-46s %-6s %-13s %3d/%-3d obligations  %6.1fs  %s" % (
             u.name + (('[' + u.inst + ']') if u.inst else ''), u.backend, u.status, n_ok, len(u.obls), u.secs, ('BOUNDED: ' + u.bounded) if u.bounded else ''))
+        if a.verbose:
+            for o in u.obls:
+                print("       [%s] %s %s: %s" % (o['name'], o['line'], o['desc'][:110], o['status']))
         if u.note:
             print("     note: " + u.note.replace('\n', '\n           ')[:1500])
     rc = 0
